@@ -189,7 +189,7 @@ def run(ctx):
                 if not T:
                     okr = False
                     gate_notes.append("checkin_cleanup no longer branches on in_transaction()")
-                elif cc.uncrossed_path([d for _, d in T], [blk], edges=qcont) is not None:
+                elif cc.uncrossed_path([d for _, d in T], [blk], edges=qcont, blocks=[c.block for c in cc.calls(MARK_BAD)] + [b2 for b2, i2, st2 in cc.assigns() if is_bad_write(st2)]) is not None:
                     okr = False
                     gate_notes.append("checkin_cleanup can clear %s while in a transaction without a successful ROLLBACK" % f)
                 Tc, Fc, _ = call_bool_edges(cc, "pgcat::server::Server::in_copy_mode", switches_cache=csw)
@@ -359,7 +359,7 @@ def run(ctx):
         csw = switches(cc)
         T, Fa, _ = call_bool_edges(cc, "pgcat::server::Server::in_transaction", switches_cache=csw)
         rb = [c for c in cc.calls("pgcat::server::Server::query") if any(x.upper().startswith(("ROLLBACK", "ABORT")) for x in arg_strs(cc, c))]
-        ok = bool(T) and bool(rb) and all(cc.dominates(te[1], rb[0].block) for te in T)
+        ok = bool(T) and bool(rb) and any(cc.dominates(te[1], rb[0].block) for te in T) and cc.uncrossed_path([0], [rb[0].block], edges={te for te in T if cc.dominates(te[1], rb[0].block)}) is None
         r5.check(ok, "rollback-on-in-transaction", "ROLLBACK is issued on the in_transaction()==true edge", "ROLLBACK is not tied to in_transaction()==true")
         # both dirty flags are consulted
         flds = set()
@@ -418,6 +418,16 @@ def run(ctx):
         why_sp = " and by sync_parameters for the SETs pgcat itself issues right after the checkout, before any client statement"
     r5.check(ok_reset, "reset-after-cleanup-query", "CleanupState::reset() is called only by checkin_cleanup after the clean-up query" + why_sp,
              "CleanupState::reset() is called from %s / not after the clean-up query: marks are dropped without cleaning the session" % rc_)
+
+    from common import rollback_findings
+    for key, ok, where, wit in rollback_findings(F):
+        if ok is None:
+            r5.missing(key)
+        elif key == "ROLLBACK-verified":
+            r5.check(ok, key, "after the ROLLBACK round trip the transaction state is looked at again (still in a transaction => bad)",
+                     "checkin_cleanup trusts the ROLLBACK blindly (Server::query returns Ok whatever the server answered; in copy-in mode the message is consumed as a protocol violation): the connection can go back to the pool inside a failed transaction block", where, wit)
+        else:
+            r5.check(ok, key, "an open transaction is rolled back before check-in returns Ok", "checkin_cleanup can return Ok with the previous client's transaction still open", where, wit)
 
     # ------------------------------------------------------------ R6 COPY cannot be cleaned
     r6 = ctx.rule("C02-R6", "a connection still in COPY mode at check-in is marked bad (or check-in fails) instead of being reused", floor=1)
